@@ -144,7 +144,15 @@ func runPlan(c *core.Ctx, p *plan) error {
 		return err
 	}
 	if err := bindingSelfTest(c, traces[0]); err != nil {
-		return err
+		// the self-test needs one long correct schedule; when the code under test is broken so badly that none
+		// exists, the violations already judged on the recorded schedules are the result, not an infrastructure error
+		fs.mu.Lock()
+		nf := len(fs.m)
+		fs.mu.Unlock()
+		if nf == 0 {
+			return err
+		}
+		c.Warn("binding self-test not run: " + err.Error())
 	}
 	lap("validate")
 
